@@ -225,28 +225,10 @@ theorem step_emit_next (w : TW) (st : Stage) (h : w.stages = [st]) (_hr : st.isR
     Notif.isTerm]
   exact deliverNotifiers_rate _ st' h' hr' 0 _
 
-theorem step_emit_term_fin (w : TW) (st : Stage) (h : w.stages = [st]) (hr : st.isRate = true)
-    (hsrc : w.src = .hot 0) (hss : w.srcSubscribed = true) (ha : w.srcAlive = true)
-    (hc : w.terminated.contains 0 = false) (n : Notif) (hn : n.isTerm = true)
-    (hf : fin [st] = true) :
-    w.step (.emit 0 n) = { w with terminated := 0 :: w.terminated } := by
-  obtain ⟨sched, src, stages, a, b, c, d, e, f, g, log⟩ := w
-  simp only at h hsrc hc hss ha; subst h; subst hsrc; subst hss; subst ha
-  cases n with
-  | next v => simp [Notif.isTerm] at hn
-  | error er =>
-    simp only [TW.step, hc, Bool.false_eq_true, if_false, decide_true, Bool.and_self, if_true,
-      Notif.isTerm, hf]
-    exact deliverNotifiers_rate _ st rfl hr 0 _
-  | complete =>
-    simp only [TW.step, hc, Bool.false_eq_true, if_false, decide_true, Bool.and_self, if_true,
-      Notif.isTerm, hf]
-    exact deliverNotifiers_rate _ st rfl hr 0 _
-
 theorem step_emit_term (w : TW) (st : Stage) (h : w.stages = [st]) (_hr : st.isRate = true)
     (hsrc : w.src = .hot 0) (hss : w.srcSubscribed = true) (ha : w.srcAlive = true)
     (hc : w.terminated.contains 0 = false) (n : Notif) (hn : n.isTerm = true)
-    (hf : fin [st] = false) (st' : Stage) (hr' : st'.isRate = true)
+    (st' : Stage) (hr' : st'.isRate = true)
     (h' : (({ w with terminated := 0 :: w.terminated, srcAlive := false } : TW).push 0 [n]).stages = [st']) :
     w.step (.emit 0 n) =
       ({ w with terminated := 0 :: w.terminated, srcAlive := false } : TW).push 0 [n] := by
@@ -256,11 +238,11 @@ theorem step_emit_term (w : TW) (st : Stage) (h : w.stages = [st]) (_hr : st.isR
   | next v => simp [Notif.isTerm] at hn
   | error er =>
     simp only [TW.step, hc, Bool.false_eq_true, if_false, decide_true, Bool.and_self, if_true,
-      Notif.isTerm, hf]
+      Notif.isTerm]
     exact deliverNotifiers_rate _ st' h' hr' 0 _
   | complete =>
     simp only [TW.step, hc, Bool.false_eq_true, if_false, decide_true, Bool.and_self, if_true,
-      Notif.isTerm, hf]
+      Notif.isTerm]
     exact deliverNotifiers_rate _ st' h' hr' 0 _
 
 end TW
